@@ -17,12 +17,12 @@
     `C06_assertions_covered` (T-gen) pins the set of bare assertions in the source to the modelled ones: a new unguarded
     assertion, or a comma-ok form turned bare, breaks it. `C06_request_goroutines` (T-gen) records which goroutines would
     not survive a panic (legacy SSE `processRequestAsync`, the stdio line handler: no recover).
-  * `C06_answered_*` — malformed input is answered by an HTTP error or a JSON-RPC error. The full statement is false on the
-    current tree; the partial theorems exclude exactly: a wrong path on Streamable (implicit empty 200,
-    `C06_wrong_path_counterexample`), an id without method / result / error (empty 202 on both HTTP servers,
-    `C06_id_only_counterexample`), a request the typed decoder rejects on legacy SSE (empty 202,
-    `C06_sse_undecodable_request_counterexample`), and everything the stdio server drops in silence
-    (`C06_stdio_silent_counterexample`).
+  * `C06_answered_streamable`, `C06_answered_stdio` — malformed input is answered by an HTTP error status or a JSON-RPC
+    error: full statements on the repaired tree (a wrong path used to get an implicit empty 200, an id-only body an empty
+    202, stdio used to drop every such line in silence: D09, D10, D11 — found by this check and repaired). Legacy SSE keeps a
+    partial theorem (`C06_answered_sse_partial`): it writes 202 before it classifies and decodes the body, so an id without
+    method / result / error and a request its typed decoder rejects are accepted and dropped
+    (`C06_sse_accepts_then_drops_counterexample`).
   * `C06_stateless_wrt_garbage*` — input that is refused does not change how the next well-formed request is answered: the
     legacy SSE and stdio reactions are functions of registry and input alone; on Streamable HTTP a refused input leaves the
     session table alone (C04's `C04_refusal_is_noop`) or — `initialize` without a session header whose parameters are
@@ -78,33 +78,21 @@ theorem C06_request_goroutines :
 
 /-! ## malformed input is answered -/
 
-/-- Streamable HTTP, right path: a body that is not a JSON-RPC message is answered with an HTTP error status — whatever the
-    mode, the session reference and the Accept header. -/
-theorem C06_answered_streamable_partial (c : SCfg) (reg : Registry) (st : St) (ref : Ref) (acc : Bool) (b : Body)
-    (h : Malformed b) : (serveStreamable c reg st ⟨.post, true, ref, acc, b⟩).2.answeredWithError = true :=
-  answered_streamable c reg st ref acc b h
-
-/-- …and so is every verb the server does not know. -/
-theorem C06_answered_streamable_verb (c : SCfg) (reg : Registry) (st : St) (ref : Ref) (acc : Bool) (b : Body) :
-    (serveStreamable c reg st ⟨.other, true, ref, acc, b⟩).2.status = some 405 := by
-  simp [serveStreamable, Reaction.http, Reaction.status]
-
-/-- The exclusion that is a defect (D09): with a server path configured (the default) a request to any other path gets no
-    answer written — net/http turns that into an empty 200. -/
-theorem C06_wrong_path_counterexample :
-    let r := (serveStreamable (demoCfg .stateful) demoReg demoSt ⟨.post, false, .sid 0, false, .parseFail⟩).2
-    r.answeredWithError = false ∧ r.status = some 200 ∧ r.messages.length = 0 := by
-  decide +kernel
-
-/-- The exclusion that is a defect (D10): an id with neither method nor result nor error is accepted with an empty 202 by
-    both HTTP servers. -/
-theorem C06_id_only_counterexample :
-    let j : Json := .obj [(t!"jsonrpc", .str t!"2.0"), (t!"id", .int 5)]
-    let r := (serveStreamable (demoCfg .stateful) demoReg demoSt (postOf (.sid 0) false j)).2
-    let r' := serveSSE demoReg (ssePostOf j)
-    r.answeredWithError = false ∧ r.status = some 202 ∧ r'.answeredWithError = false ∧ r'.status = some 202 ∧
-    r'.messages.length = 0 := by
-  decide +kernel
+/-- Streamable HTTP — whatever the mode, the session reference and the Accept header: a wrong path is answered 404, an unknown
+    verb 405, a body that is not a JSON-RPC message with an HTTP error status, and so is an id with neither method nor
+    result nor error. (On the tree first studied a wrong path got an implicit empty 200 and the id-only body an empty 202 —
+    D09, D10 — found by this check and repaired.) -/
+theorem C06_answered_streamable (c : SCfg) (reg : Registry) (st : St) (v : Verb) (ref : Ref) (acc : Bool) (b : Body) :
+    (serveStreamable c reg st ⟨v, false, ref, acc, b⟩).2.status = some 404 ∧
+    (serveStreamable c reg st ⟨.other, true, ref, acc, b⟩).2.status = some 405 ∧
+    (Malformed b → (serveStreamable c reg st ⟨.post, true, ref, acc, b⟩).2.answeredWithError = true) ∧
+    (∀ j base, b = .json j → decodeBase j = some base → base.id.isSome = true → base.method = [] →
+      decodeResponse j = some (false, false) → (serveStreamable c reg st ⟨.post, true, ref, acc, b⟩).2.answeredWithError = true) := by
+  refine ⟨by simp [serveStreamable, Reaction.http, Reaction.status], by simp [serveStreamable, Reaction.http, Reaction.status],
+    answered_streamable c reg st ref acc b, ?_⟩
+  intro j base hb hd hi hm hr
+  subst hb
+  simpa [serveStreamable] using id_only_refused c reg st ref j base hd hi hm hr
 
 /-- Legacy SSE, message endpoint: a body that is not a JSON-RPC message is answered with an HTTP error status or with a
     JSON-RPC error object — whatever the verb and the session parameter. -/
@@ -112,28 +100,35 @@ theorem C06_answered_sse_partial (reg : Registry) (verb : Verb) (ref : SseRef) (
     (serveSSE reg ⟨verb, .message, ref, b⟩).answeredWithError = true :=
   answered_sse reg verb ref b h
 
-/-- The exclusion on legacy SSE: a request the typed decoder rejects (here: a parameter no float64 can hold) has already
-    been accepted with 202 when the decode fails, and nothing follows on the stream. -/
-theorem C06_sse_undecodable_request_counterexample :
-    let j := demoEnv (.int 1) t!"ping" (some (.obj [(t!"x", .int (10 ^ 400))]))
-    let r := serveSSE demoReg (ssePostOf j)
-    r.answeredWithError = false ∧ r.status = some 202 ∧ r.messages.length = 0 ∧
-    (serveStreamable (demoCfg .stateless) demoReg {} (postOf .none false j)).2.status = some 400 := by
+/-- The exclusions on legacy SSE (it writes 202 before it classifies and decodes the body): an id with neither method nor
+    result nor error, and a request the typed decoder rejects (here: a parameter no float64 can hold), are accepted with an
+    empty 202 and nothing follows on the stream — Streamable answers 400 to both. -/
+theorem C06_sse_accepts_then_drops_counterexample :
+    let idOnly : Json := .obj [(t!"jsonrpc", .str t!"2.0"), (t!"id", .int 5)]
+    let huge := demoEnv (.int 1) t!"ping" (some (.obj [(t!"x", .int (10 ^ 400))]))
+    (serveSSE demoReg (ssePostOf idOnly)).answeredWithError = false ∧ (serveSSE demoReg (ssePostOf idOnly)).status = some 202 ∧
+    (serveSSE demoReg (ssePostOf idOnly)).messages.length = 0 ∧
+    (serveSSE demoReg (ssePostOf huge)).answeredWithError = false ∧ (serveSSE demoReg (ssePostOf huge)).status = some 202 ∧
+    (serveSSE demoReg (ssePostOf huge)).messages.length = 0 ∧
+    (serveStreamable (demoCfg .stateful) demoReg demoSt (postOf (.sid 0) false idOnly)).2.status = some 400 ∧
+    (serveStreamable (demoCfg .stateless) demoReg {} (postOf .none false huge)).2.status = some 400 := by
   decide +kernel
 
-/-- stdio: a line that IS classified as a request is answered even when the typed decoder rejects it (−32700). -/
-theorem C06_answered_stdio_partial (reg : Registry) (j : Json) (hc : classifyStdio j = some .request)
-    (hd : decodeRequest j = none) : (serveStdio reg (.json j)).answeredWithError = true :=
-  answered_stdio reg j hc hd
+/-- stdio: a line that is not JSON, or not a JSON-RPC message (not an object, not version "2.0", neither id nor method, a
+    number no float64 can hold), or a request the typed decoder rejects, is answered with a JSON-RPC error. (The tree first
+    studied dropped all of these in silence — D11 — found by this check and repaired.) -/
+theorem C06_answered_stdio (reg : Registry) (b : Body) :
+    (MalformedLine b → (serveStdio reg b).answeredWithError = true) ∧
+    (∀ j, b = .json j → classifyStdio j = some .request → decodeRequest j = none → (serveStdio reg b).answeredWithError = true) :=
+  ⟨answered_stdio_malformed reg b, fun j hb hc hd => hb ▸ answered_stdio reg j hc hd⟩
 
-/-- The exclusion on stdio (D11): what is not JSON, not an object, not version "2.0" or neither request nor notification is
-    dropped without any answer. -/
-theorem C06_stdio_silent_counterexample :
-    (serveStdio demoReg .parseFail).messages.length = 0 ∧ (serveStdio demoReg .parseFail).answeredWithError = false ∧
-    (serveStdio demoReg (.json (.arr []))).messages.length = 0 ∧
-    (serveStdio demoReg (.json (.obj [(t!"jsonrpc", .str t!"1.0"), (t!"id", .int 1), (t!"method", .str t!"ping")]))).messages.length = 0 ∧
-    (serveStdio demoReg (.json (.obj [(t!"jsonrpc", .str t!"2.0")]))).messages.length = 0 ∧
-    (serveStdio demoReg (.json (demoEnv (.int (10 ^ 400)) t!"ping" none))).messages.length = 0 := by
+/-- non-vacuity of `MalformedLine`: the lines the old server dropped are in it and get −32700 / −32600 -/
+example :
+    (serveStdio demoReg .parseFail).errorCode = some (-32700) ∧
+    classifyStdio (.arr []) = none ∧ (serveStdio demoReg (.json (.arr []))).errorCode = some (-32600) ∧
+    (serveStdio demoReg (.json (.obj [(t!"jsonrpc", .str t!"1.0"), (t!"id", .int 1), (t!"method", .str t!"ping")]))).errorCode = some (-32600) ∧
+    (serveStdio demoReg (.json (.obj [(t!"jsonrpc", .str t!"2.0")]))).errorCode = some (-32600) ∧
+    (serveStdio demoReg (.json (demoEnv (.int (10 ^ 400)) t!"ping" none))).errorCode = some (-32600) := by
   decide +kernel
 
 /-! ## refused input does not change later answers -/
@@ -154,11 +149,10 @@ private theorem resolve_state (c : Cfg) (st st1 : St) (isInit : Bool) (ref : Ref
   cases hm : c.mode <;> cases ref <;> simp_all <;> (repeat' (split at h <;> simp_all))
 
 private theorem ansMsg_error (id : Option Json) (a : Ans) (h : ((ansMsg id a).toList).any isErrorMsg = true) :
-    ∃ code msg, a = .error code msg := by
-  cases a with
-  | result r => simp [ansMsg, okMsg, isErrorMsg, hasKey, lookup, jsonrpcField] at h
-  | error c m => exact ⟨c, m, rfl⟩
-  | unencodable => simp [ansMsg] at h
+    ∀ r, a ≠ .result r := by
+  intro r hr
+  subst hr
+  simp [ansMsg, okMsg, isErrorMsg, hasKey, lookup, jsonrpcField] at h
 
 private theorem servePost_refused_state (c : SCfg) (reg : Registry) (st : St) (ref : Ref) (j : Json)
     (h : (servePost c reg st ref j).2.answeredWithError = true) :
@@ -186,10 +180,12 @@ private theorem servePost_refused_state (c : SCfg) (reg : Registry) (st : St) (r
           | ok a =>
             simp only [hd] at h ⊢
             simp [Reaction.answeredWithError, Reaction.http] at h
-            obtain ⟨code, msg, rfl⟩ := ansMsg_error _ _ (by simpa using h)
+            have hnr := ansMsg_error _ _ (by simpa using h)
             rw [postBody_noninit]
             · exact hst1
-            · unfold requestKind; split <;> simp
+            · unfold requestKind; split
+              · cases a <;> simp_all
+              · simp
       · simp only [h1, Bool.false_eq_true, if_false] at h ⊢
         by_cases h2 : (!b.method.isEmpty) = true
         · simp only [h2, if_true] at h ⊢
